@@ -14,6 +14,8 @@ import TracklibVerif.Model.GraphSession
   with priority `poids = 0` — it is alone there, so its priority is never compared.
 * `Node.distanceTo` → `ENUCoords.distanceTo` → `(point - self).norm()` = `sqrt(E**2 + N**2 + U**2)`.
 * several `Network` objects alive at the same time (`World`), each with its own settings.
+* `sub_network(source, cut, "GEOMETRIC")` → `__sub_network_geometric` on a network without spatial index (`subEdgesGeo`, `WOp.subGeo`):
+  the edges with an end within the planimetric distance `cut` of `source`; `ENUCoords.distance2DTo` → `norm2D`.
 
 The last section, "the A* branch before fix c78e3ab", keeps the pre-fix loop (`…HOld`: `poids = g + h`, the next edge added
 on top of it) as the documented defective variant; nothing but its own lemmas refers to it.
@@ -35,6 +37,35 @@ def distanceTo [Sub W] [Mul W] [Add W] (sqrt : W → W) (a b : Pos W) : W :=
   let dN := b.n - a.n
   let dU := b.u - a.u
   sqrt (dE * dE + dN * dN + dU * dU)
+
+/-- `a.distance2DTo(b)` = `(b - a).norm2D()` = `math.sqrt(E ** 2 + N ** 2)` of `(b.E - a.E, b.N - a.N)`: the altitude is ignored -/
+def distance2DTo [Sub W] [Mul W] [Add W] (sqrt : W → W) (a b : Pos W) : W :=
+  let dE := b.e - a.e
+  let dN := b.n - a.n
+  sqrt (dE * dE + dN * dN)
+
+/-- how the caller designates the centre of `sub_network(source, cut, "GEOMETRIC")` -/
+inductive GeoSrc (W : Type) where
+  | coord (p : Pos W)      -- an `ENUCoords` object: used as it is
+  | node (v : Nat)         -- a `Node` object, a `str` id or an `int` id of node `v` (see `execObj`: every one of them raises)
+
+/-- the edges `__sub_network_geometric` keeps when the network has no spatial index (`to_run = self.getEdgesId()`): an edge is
+skipped `if min(source.distance2DTo(e.source.coord), source.distance2DTo(e.target.coord)) > cut` — Python's `min(d1, d2)` is `d2`
+when `d2 < d1`, else `d1`. `cut = none` is the value `1e300`, which no distance exceeds. -/
+def subEdgesGeo [Sub W] [Mul W] [Add W] [LT W] [DecidableLT W] (sqrt : W → W) (pos : Nat → Pos W) (net : Net W) (p : Pos W)
+    (cut : Option W) : List (Edge W) :=
+  net.edges.filter (fun e =>
+    let d1 := distance2DTo sqrt p (pos e.src)
+    let d2 := distance2DTo sqrt p (pos e.tgt)
+    let m := if d2 < d1 then d2 else d1
+    match cut with
+    | some c => !decide (c < m)
+    | none => true)
+
+/-- what the harness reads off a network returned by `sub_network`: `getNodesId()` (the ends of the kept edges in the order
+`sub_net.addEdge(e, e.source, e.target)` met them) and `getEdgesId()` -/
+def subnetOut (es : List (Edge W)) : Out W :=
+  .subnet (es.foldl (fun o e => addNodeTo (addNodeTo o e.src) e.tgt) []) (es.map (·.id))
 
 /-- integer square root (floor), Newton's iteration from above; `fuel` = number of iterations allowed -/
 def isqrtAux (n : Nat) : Nat → Nat → Nat
@@ -122,6 +153,7 @@ inductive WOp (W : Type) where
   | setMethod (m : Nat)          -- `setRoutingMethod(m)`
   | setWeight (w : W)            -- `setAStarWeight(w)`
   | call (op : Op W)             -- any call of `Model/GraphSession.lean`
+  | subGeo (src : GeoSrc W) (cut : Option W)   -- `sub_network(src, cut, "GEOMETRIC")` (no spatial index)
 
 variable [Sub W] [Mul W] [OfNat W 0]
 
@@ -152,6 +184,11 @@ def execObj (sqrt : W → W) (o : NetObj W) : WOp W → NetObj W × Out W
       else (o, .err)
     else let r := exec o.sess (.dist s t cut ud); ({ o with sess := r.1 }, r.2)
   | .call op => let r := exec o.sess op; ({ o with sess := r.1 }, r.2)
+  -- `__sub_network_geometric`: no search is run, no flag is touched, the object is left as it was; the centre is a coordinate
+  | .subGeo (.coord p) cut => (o, subnetOut (subEdgesGeo sqrt o.pos o.sess.net p cut))
+  -- … given as a `Node` or a `str`, the code evaluates `self.__correctInputNode(source).coord`, i.e. `.coord` of the node's *id*
+  -- (AttributeError); given as an `int` id it is left alone and `source.distance2DTo` fails (AttributeError): the call raises
+  | .subGeo (.node _) _ => (o, .err)
 
 /-- a sequence of calls on one object: what each returned -/
 def runObj (sqrt : W → W) (o : NetObj W) : List (WOp W) → List (Out W)
